@@ -97,6 +97,10 @@ def _history(rng, keys, absent, n_ops, lo=-9, lo_hi=None):
             ops.append({"t": t, "perm": perm, "xs": [rng.randint(0, 50) for _ in keys]})
         elif t in ("contains", "hs_contains"):
             ks = htgen.queries(rng, keys, absent, maxlen=5) + ([rng.choice(absent)] if absent and rng.random() < 0.5 else [])
+            if lo_hi is not None and rng.random() < 0.6:
+                # values an implementation may use as a marker (-1, 0, the ends of the key dtype), as NON-keys among the queries
+                marks = [a for a in (-1, 0, lo_hi[0], lo_hi[1], 1) if a not in keys and lo_hi[0] <= a <= lo_hi[1]]
+                ks = ks + rng.sample(marks, min(len(marks), rng.randint(1, 2)))
             if absent and rng.random() < 0.4:       # the same absent key several times in one query, among present ones
                 a1 = rng.choice(absent)
                 ks = ks + [a1] * rng.randint(2, 3) + [rng.choice(keys)] + [rng.choice(absent)] * 2
@@ -459,6 +463,8 @@ def _eqv(a, b):
         return len(a) == len(b) and all(_eqv(x, y) for x, y in zip(a, b))
     if isinstance(a, bool) or isinstance(b, bool):
         return a is b or a == b and isinstance(a, bool) and isinstance(b, bool)
+    if isinstance(a, str) or isinstance(b, str):
+        return a == b          # (a harness message such as "items != to_dict" is an answer that equals nothing else)
     return float(a) == float(b)
 
 
